@@ -294,6 +294,7 @@ func (f *trFunc) findAliases() {
 		})
 		// rebinding of the alias variable, kills of the container
 		needFlag := false
+		detachUsed := false
 		var kills []token.Pos
 		ast.Inspect(body, func(n ast.Node) bool {
 			switch s := n.(type) {
@@ -336,6 +337,11 @@ func (f *trFunc) findAliases() {
 					args := f.callArgs(s)
 					for i, a := range args {
 						if i < len(g.params) && f.objOf(a) == b.root && g.writesField(g.params[i], b.field) {
+							if f.spec != nil && f.spec.Detach[b.obj.Name()] == f.src(s) {
+								needFlag = true // reviewed: the element leaves the container here; no write-back afterwards
+								detachUsed = true
+								continue
+							}
 							kills = append(kills, s.Pos())
 						}
 					}
@@ -354,6 +360,9 @@ func (f *trFunc) findAliases() {
 		if needFlag {
 			a.flag = "__live_" + b.obj.Name()
 			f.used[a.flag] = true
+		}
+		if detachUsed {
+			f.detached[b.obj] = true
 		}
 		f.alias[b.obj] = a
 		f.aliasBind[b.stmt] = a
@@ -650,6 +659,28 @@ func (f *trFunc) detectFinder() {
 					return false
 				}
 			case *ast.ReturnStmt:
+				if len(s.Results) == 1 {
+					// return P.finder(..) with P a parameter: the same finder
+					if c, ok := ast.Unparen(s.Results[0]).(*ast.CallExpr); ok {
+						if g, _ := f.callee(c); g != nil && g.finder != nil && len(g.mutParams) == 0 {
+							args := f.callArgs(c)
+							if g.finder.param < len(args) {
+								root := f.objOf(args[g.finder.param])
+								pi := -1
+								for i, p := range f.params {
+									if p == root {
+										pi = i
+									}
+								}
+								if pi >= 0 && (fi == nil || (fi.param == pi && fi.field == g.finder.field)) {
+									fi = &finderInfo{param: pi, field: g.finder.field}
+									some = true
+									return true
+								}
+							}
+						}
+					}
+				}
 				if len(s.Results) != 2 {
 					okAll = false
 					return true
